@@ -17,6 +17,7 @@ ASSUMPTIONS = ["max/min/mean/stdev of a group without non-None values are None, 
                "whole-column reductions are only judged for vectors with >=1 non-None value (statement)"]
 
 METHOD = "aggregate"
+VARIANT = [0]      # provenance round-robin counter (per worker process, reset per unit)
 
 
 def nontrivial(keys):
@@ -31,7 +32,9 @@ def check_aggregate(agg, h, kind, nkeys, form, keys, vals, menu_name):
     py = gs.py_repro(keys, vals, nkeys, form, menu_name, METHOD)
     calls = []
     try:
-        t, over = gs.build(keys, vals, nkeys, form)
+        VARIANT[0] += 1
+        case["variant"] = VARIANT[0]
+        t, over = gs.build(keys, vals, nkeys, form, variant=VARIANT[0])
         kw = gs.build_kwargs(t, vals, menu, form, calls)
     except Exception as e:
         agg.violation(V("aggregate.build-inputs", "raises-" + type(e).__name__, case))
@@ -91,6 +94,7 @@ def run_unit(unit):
     agg = Agg()
     h = hashlib.sha256()
     last = None
+    VARIANT[0] = 0
     for keys, vals in gs.cases(unit):
         agg.states += 1
         if nontrivial(keys):
@@ -274,6 +278,7 @@ def replay(rec):
         hist_one(agg, case["kind"], case["form"], case["method"], [tuple(k) for k in case["keys"]], case["values"], col, idx, new, path)
         return set(agg.viol)
     if "menu" in case and case.get("method") == METHOD:
+        VARIANT[0] = int(case.get("variant", 1)) - 1
         check_aggregate(agg, hashlib.sha256(), case["kind"], case["nkeys"], case["form"], [tuple(k) for k in case["keys"]], case["values"], case["menu"])
         return set(agg.viol)
     return None
